@@ -1056,7 +1056,14 @@ class IMAPSubprocessInterface:
             while True:
                 if self.reader.at_eof():
                     break
-                msg = await self.reader.readuntil(b"\r\n")
+                # NOTE: Relay whatever has arrived. Reading up to the next CRLF
+                #       fails with LimitOverrunError on a response literal
+                #       that has more octets without a CRLF in them than the
+                #       stream's limit (an unwrapped base64 or binary body.)
+                #
+                msg = await self.reader.read(65536)
+                if not msg:
+                    break
                 await self.imap_client.push(msg)
         except (OSError, asyncio.IncompleteReadError, ConnectionResetError):
             pass
